@@ -18,6 +18,7 @@ import (
 type replayC18Fact struct {
 	A, B  int64
 	S     string
+	Flag  bool
 	Fired bool
 }
 
@@ -37,6 +38,14 @@ func replayC18Num(r *rand.Rand, d int, f *replayC18Fact) (interface{}, int64) {
 		}
 	}
 	l, lv := replayC18Num(r, d-1, f)
+	if r.Intn(5) == 0 {
+		// integer-only operators with a bare JSON number of seven digits: it must stay an integer literal
+		big := []int64{1000000, 2500000, 16777217}[r.Intn(3)]
+		if r.Intn(2) == 0 {
+			return map[string]interface{}{"mod": []interface{}{map[string]interface{}{"plus": []interface{}{l, float64(big + 3)}}, float64(big)}}, (lv + big + 3) % big
+		}
+		return map[string]interface{}{"band": []interface{}{l, float64(big)}}, lv & big
+	}
 	rr, rv := replayC18Num(r, d-1, f)
 	switch r.Intn(3) {
 	case 0:
@@ -49,6 +58,19 @@ func replayC18Num(r *rand.Rand, d int, f *replayC18Fact) (interface{}, int64) {
 }
 
 func replayC18Bool(r *rand.Rand, d int, f *replayC18Fact) (interface{}, bool) {
+	if r.Intn(6) == 0 {
+		// a boolean fact as a plain GRL string or wrapped in obj
+		if r.Intn(2) == 0 {
+			return "F.Flag", f.Flag
+		}
+		return map[string]interface{}{"obj": "F.Flag"}, f.Flag
+	}
+	if d > 0 && r.Intn(6) == 0 {
+		// `not` between two boolean operands is the documented != operator: operands grouped as nested, not negated
+		s1, v1 := replayC18Bool(r, d-1, f)
+		s2, v2 := replayC18Bool(r, d-1, f)
+		return map[string]interface{}{"not": []interface{}{s1, s2}}, v1 != v2
+	}
 	if d == 0 || r.Intn(3) == 0 {
 		l, lv := replayC18Num(r, 2, f)
 		rr, rv := replayC18Num(r, 2, f)
@@ -58,7 +80,7 @@ func replayC18Bool(r *rand.Rand, d int, f *replayC18Fact) (interface{}, bool) {
 		return map[string]interface{}{op: []interface{}{l, rr}}, res
 	}
 	if r.Intn(5) == 0 {
-		// `not` with a single nested operator object: !( ... )
+		// `not` with a single operand - an operator object, a plain string or an obj - is its logical negation
 		s, v := replayC18Bool(r, d-1, f)
 		return map[string]interface{}{"not": []interface{}{s}}, !v
 	}
@@ -68,6 +90,9 @@ func replayC18Bool(r *rand.Rand, d int, f *replayC18Fact) (interface{}, bool) {
 	acc := and
 	for i := 0; i < n; i++ {
 		s, v := replayC18Bool(r, d-1, f)
+		if str, isStr := s.(string); isStr {
+			s = map[string]interface{}{"obj": str} // and/or take operator objects only
+		}
 		subs = append(subs, s)
 		if and {
 			acc = acc && v
@@ -105,9 +130,12 @@ func replayC18Run(rule map[string]interface{}, f replayC18Fact) (replayC18Fact, 
 
 func TestReplaySearchJSONMeaning(t *testing.T) {
 	r := rand.New(rand.NewSource(18))
-	for n := 0; n < 400; n++ {
-		f := replayC18Fact{A: int64(r.Intn(9) - 2), B: int64(r.Intn(9) - 2)}
+	for n := 0; n < 1200; n++ {
+		f := replayC18Fact{A: int64(r.Intn(9) - 2), B: int64(r.Intn(9) - 2), Flag: r.Intn(2) == 0}
 		when, want := replayC18Bool(r, 2, &f)
+		if _, isStr := when.(string); isStr {
+			continue // a bare string is not a JSON operator tree
+		}
 		rule := map[string]interface{}{"name": "R", "desc": "d", "salience": 3, "when": when,
 			"then": []interface{}{map[string]interface{}{"set": []interface{}{map[string]interface{}{"obj": "F.Fired"}, map[string]interface{}{"const": true}}}, `Retract("R")`}}
 		got, grl, err := replayC18Run(rule, f)
